@@ -322,6 +322,14 @@ def eval_cli(ki, ko, si, so, in_m, out_m, hs):
         st_b = W.parse_status(r1b.stdout).get("T") if r1b.exit_code == 0 else f"exit{r1b.exit_code}"
         if st_b != st:
             st = f"{st} then {st_b} after a dry run"
+        # ... and neither does a run whose submission the scheduler rejects (the script was not "submitted")
+        s.sim.s["faults"] = {"sbatch#0": "rc1"}
+        s.gwf(["run"])
+        s.sim.s["faults"] = {}
+        r1c = s.gwf(["status"])
+        st_c = W.parse_status(r1c.stdout).get("T") if r1c.exit_code == 0 else f"exit{r1c.exit_code}"
+        if st_c != st_b:
+            st = f"{st} then {st_c} after a rejected submission"
         r2 = s.gwf(["run"])
         sub = [j["name"] for j in s.sim.journal_submits()] if r2.exit_code == 0 else f"exit{r2.exit_code}:{r2.err_summary()}"
     return (st, sub == ["T"] if isinstance(sub, list) else sub)
@@ -337,7 +345,7 @@ def cli_batch(acc, batch, ranks=3):
                     case = dict(kind="cli", ki=ki, ko=ko, si=si, so=so, in_m=in_m, out_m=out_m, hs=hs)
                     obs = eval_cli(ki, ko, si, so, in_m, out_m, hs)
                     acc.case(key=("cli", ki, ko, in_m, out_m, hs), outcome="cli" + str(obs), sample=case)
-                    acc.extra["cli_invocations"] += 4
+                    acc.extra["cli_invocations"] += 6
                     if obs != exp:
                         acc.violation(
                             sig=dict(kind="cli", ko=ko, so=so if ko == 0 else "*", exp=exp[0], obs=str(obs[0])[:40]),
